@@ -10,5 +10,8 @@ CFG = {
     "rule": "TBD",
     "expected_probes": [],
     "real_vs_stub": {"real": [], "stub": []},
+    "gates": [
+        {"files": ["banyand/trace/merger.go", "banyand/trace/tstable.go", "pkg/run/goroutine.go"], "mode": "A"},
+    ],
     "assumptions": STD_ASSUME,
 }
